@@ -97,6 +97,11 @@ def part_a(chk, derives):
                 reqs.append({"derive": d["name"], "item": "#[%s] %s" % (a, s)})
                 reqs.append({"derive": d["name"], "item": "#[%s(forward)] %s" % (a, s)})
                 reqs.append({"derive": d["name"], "item": "#[%s(\"{}\")] %s" % (a, s)})
+        # reference kinds next to an unsized trait-object field with several bounds (a `&` in front of it needs parentheses)
+        for a in d["attrs"]:
+            for item in ("#[%s(ref)] struct S(u8, dyn Tr + Send);", "#[%s(ref, ref_mut)] struct S(dyn Tr + Send + 'static);", "struct S(#[%s(ref, ref_mut)] dyn Tr + Send);",
+                         "struct S { a: u8, #[%s(owned, ref)] b: dyn Tr + Send }", "#[%s(ref_mut)] struct S<'a>(&'a u8, dyn Tr + 'a);"):
+                reqs.append({"derive": d["name"], "item": item % a})
         # parameter names decorated the way paths can be: generic arguments, leading `::`, further segments
         for a in d["attrs"]:
             for s in ("struct S(u8);", "struct S { a: u8, b: u16 }", "enum E { A(u8), B }"):
